@@ -65,6 +65,9 @@ def mk_input(inp, ref_slots):
     if k == "Unit":
         v = z3.Int(nm)
         return EnumV("Unit", v, (), None), [v], [v >= 0, v <= 8]
+    if k == "Weekday":
+        v = z3.Int(nm)
+        return EnumV("Weekday", v, (), None), [v], [v >= 0, v <= 6]
     if k == "TimeScale":
         v = z3.Int(nm)
         return EnumV("TimeScale", v, (), None), [v], [v >= 0, v <= 8]
@@ -127,9 +130,10 @@ class MirOb:
     def __init__(self, name, fn, inputs, post, desc, eval_key, pre=None, eval_args=None, functions=None,
                  bounds="full width of the input types; loop-free", outside=None, tier="quick", modes=("dev", "release"),
                  panic_ok=None, min_paths=1, probes=None, loop_bound=8, out_of_ref=None, uf_mul=False, timeout_ms=30000,
-                 eval_out=None, ret_shape="Duration", native_refs=None, pin_vars=None, summaries=None):
+                 eval_out=None, ret_shape="Duration", native_refs=None, pin_vars=None, summaries=None, summaries_concrete=None):
         self.pin_vars = pin_vars
         self.summaries = summaries or {}
+        self.summaries_concrete = self.summaries if summaries_concrete is None else summaries_concrete
         self.name, self.fn, self.inputs, self.post, self.desc = name, fn, inputs, post, desc
         self.eval_key, self.pre, self.eval_args = eval_key, pre, eval_args
         self.functions, self.bounds, self.outside, self.tier, self.modes = functions or [fn], bounds, outside, tier, modes
@@ -276,9 +280,10 @@ def run_sym(eng, ob, fn_item, subst_vals=None):
     eng.static_vals[holder_uid] = {i: v for i, v in enumerate(ref_slots)}
     real_args = [Ref(holder_uid, a[1]) if isinstance(a, tuple) else a for a in args]
     eng.loop_bound = ob.loop_bound
-    eng.summaries = dict(ob.summaries)
+    eng.summaries = dict(ob.summaries if subst_vals is None else ob.summaries_concrete)
     eng.use_uf_mul = ob.uf_mul and subst_vals is None
     env["__mul"] = (lambda a, b: eng.mul(Z(a), Z(b))) if eng.use_uf_mul else (lambda a, b: Z(a) * Z(b))
+    env["__eng"] = eng if subst_vals is None else None
     pre = list(cons)
     if ob.pre is not None and subst_vals is None:
         pre.append(ob.pre(env))
@@ -335,6 +340,34 @@ class _Holder:
 HOLDER_ITEM = _Holder()
 
 
+def sym_paths(eng, fn_spec, values):
+    """Run another function of the crate symbolically on the given argument values (references are created
+    for `("ref", value)` entries) and return [(path-condition conjunction, return value)] for its returning paths.
+    Used by compositional post-conditions ("accessor == component of the function decided separately")."""
+    fn_item = find_fn(eng, fn_spec)
+    ref_slots, args = [], []
+    huid = next(eng.uid)
+    for v in values:
+        if isinstance(v, tuple) and v[0] == "ref":
+            args.append(Ref(huid, len(ref_slots)))
+            ref_slots.append(v[1])
+        else:
+            args.append(v)
+    saved = (eng.exclusions, eng.summaries)
+    eng.exclusions = []
+    try:
+        ends = eng_run_with_holder(eng, fn_item, args, [], huid, ref_slots)
+    finally:
+        eng.exclusions, eng.summaries = saved
+    out = []
+    for e in ends:
+        if e.kind == "return":
+            out.append((z3.And([Z(p) for p in e.state.pc]) if e.state.pc else z3.BoolVal(True), e.value))
+        elif e.kind != "panic":
+            raise TranslationError("sym_paths: unexpected path end " + e.kind)
+    return out
+
+
 def holder_vals(end, holder_uid):
     f = end.state.frame(holder_uid)
     return [f.vals[i] for i in sorted(f.vals)] if f else []
@@ -388,6 +421,8 @@ def probes_for(ob, seed, n_random):
                 vals[nm + "_c"], vals[nm + "_n"] = pick("i16", boundary), pick("u64", boundary)
             elif k in ("Unit", "TimeScale"):
                 vals[nm] = rnd.randint(0, 8)
+            elif k == "Weekday":
+                vals[nm] = rnd.randint(0, 6)
             elif k in ("Epoch", "&Epoch"):
                 vals[nm + "_c"], vals[nm + "_n"] = canon(boundary)
                 vals[nm + "_ts"] = rnd.randint(0, 8)
@@ -468,7 +503,7 @@ def refine_uf_model(eng, pc, goal, m, allvars, ob):
     cands = {}
     for v in allvars:
         if str(v) in pins:
-            mv = m.eval(v, model_completion=True).as_long()
+            mv = m[str(v)] if isinstance(m, dict) else m.eval(v, model_completion=True).as_long()
             cands[v] = [mv, 1, -1, 2, -2, 3, -3, 7, -7, 10, 1000, -1000, (1 << 63) - 1, -(1 << 63), -(1 << 63) + 1, (1 << 62), -(1 << 62), 0]
     if not cands:
         return None
@@ -491,7 +526,33 @@ def refine_uf_model(eng, pc, goal, m, allvars, ob):
 
 
 def model_vals(model, allvars):
+    if isinstance(model, dict):
+        return {str(v): model[str(v)] for v in allvars}
     return {str(v): model.eval(v, model_completion=True).as_long() for v in allvars}
+
+
+def const_bindings(pc):
+    """`var == numeral` facts on the path (e.g. the concrete time scale of this path)"""
+    sub = []
+    for p in pc:
+        p = Z(p)
+        if z3.is_eq(p):
+            a, b = p.children()
+            if z3.is_int_value(a) and z3.is_const(b) and b.decl().kind() == z3.Z3_OP_UNINTERPRETED:
+                a, b = b, a
+            if z3.is_const(a) and a.decl().kind() == z3.Z3_OP_UNINTERPRETED and z3.is_int_value(b):
+                sub.append((a, b))
+    return sub
+
+
+def specialise(pc, goal):
+    """substitute path-constant variables into the goal and the path condition and simplify: the solvers do not
+    propagate `ts == 7` into nested ite-tables under div/mod by themselves"""
+    sub = const_bindings(pc)
+    if not sub:
+        return list(pc), goal
+    pc2 = [z3.simplify(z3.substitute(Z(p), *sub)) for p in pc] + [a == b for a, b in sub]
+    return pc2, z3.simplify(z3.substitute(Z(goal), *sub))
 
 
 def smt2_of(pc, goal):
@@ -500,6 +561,73 @@ def smt2_of(pc, goal):
         s.add(p)
     s.add(goal)
     return "(set-logic ALL)\n" + s.to_smt2()
+
+
+QDIR = os.path.join(sync.WORK, "q")
+
+
+def _run_solver(cmd, path, timeout):
+    try:
+        p = subprocess.run(cmd + [path], capture_output=True, text=True, timeout=timeout + 5)
+    except subprocess.TimeoutExpired:
+        return "timeout", ""
+    out = p.stdout
+    first = (out.strip().splitlines() or ["unknown"])[0].strip()
+    if first in ("sat", "unsat"):
+        return first, out
+    if "(error" in out and first not in ("timeout", "unknown"):
+        return "error", out
+    return "unknown", out
+
+
+def portfolio_check(pc, goal, allvars, timeout_s):
+    """convenience wrapper (main thread only: z3's API is not thread-safe)"""
+    return portfolio_check_text(smt2_of(pc, goal), [str(v) for v in allvars], timeout_s)
+
+
+def portfolio_check_text(base, varnames, timeout_s):
+    """Decide pc /\ goal with external solver processes under hard time limits: z3 (old arithmetic solver, which
+    handles div/mod by large constants) and cvc5 in parallel; the first sat/unsat wins. Returns (verdict, model, who)."""
+    import uuid, concurrent.futures as cf
+    os.makedirs(QDIR, exist_ok=True)
+    path = os.path.join(QDIR, uuid.uuid4().hex + ".smt2")
+    open(path, "w").write(base)
+    cmds = {"z3-arith2": ["z3-new", "-smt2", f"-T:{timeout_s}", "smt.arith.solver=2"],
+            "cvc5": ["cvc5", "--lang", "smt2", f"--tlimit={timeout_s * 1000}"]}
+    verdict, who = "unknown", None
+    answers = {}
+    with cf.ThreadPoolExecutor(max_workers=2) as ex:
+        futs = {ex.submit(_run_solver, c, path, timeout_s): k for k, c in cmds.items()}
+        for f in cf.as_completed(futs):
+            r, _ = f.result()
+            answers[futs[f]] = r
+            if r in ("sat", "unsat") and verdict == "unknown":
+                verdict, who = r, futs[f]
+    if "sat" in answers.values() and "unsat" in answers.values():
+        os.remove(path)
+        return "disagree", None, "z3-arith2 vs cvc5"
+    model = None
+    if verdict == "sat":
+        names = " ".join(varnames)
+        mpath = path + ".m.smt2"
+        open(mpath, "w").write(base.replace("(check-sat)", "(check-sat)\n(get-value (%s))" % names))
+        r, out = _run_solver(["z3-new", "-smt2", f"-T:{timeout_s}", "smt.arith.solver=2"], mpath, timeout_s)
+        if r != "sat":
+            r, out = _run_solver(["cvc5", "--lang", "smt2", "--produce-models", f"--tlimit={timeout_s * 1000}"], mpath, timeout_s)
+        os.remove(mpath)
+        if r == "sat":
+            model = {}
+            for mm in re.finditer(r"\((\S+)\s+(\(-\s*\d+\)|-?\d+)\)", out):
+                model[mm.group(1)] = int(mm.group(2).replace("(", "").replace(")", "").replace(" ", ""))
+            if any(v not in model for v in varnames):
+                model = None
+        if model is None:
+            verdict = "unknown"
+    try:
+        os.remove(path)
+    except OSError:
+        pass
+    return verdict, model, who
 
 
 def cvc5_check(smt2, timeout=60):
@@ -533,7 +661,7 @@ def run_obligations(obs, tier, seed, need_replay, build_info):
         try:
             for mode in ob.modes:
                 eng = get_engine(mode, mirtext)
-                eng.solver.set("timeout", ob.timeout_ms)
+                eng.solver.set("timeout", min(ob.timeout_ms, 6000))
                 q0, s0 = eng.queries, eng.solver_s
                 fn_item = find_fn(eng, ob.fn)
                 rec["functions"] = sorted(set(rec["functions"]) | {fn_item.name})
@@ -548,6 +676,9 @@ def run_obligations(obs, tier, seed, need_replay, build_info):
                 ends, allvars, env, huid = run_sym(eng, ob, fn_item)
                 called = sorted(c for c in eng.called)
                 nret = 0
+                solved = []     # (e, what, goal, verdict, model)
+                pending = []    # (e, what, qpc, goal)
+                import threading
                 for e in ends:
                     goal = None
                     if e.kind == "bound":
@@ -567,24 +698,40 @@ def run_obligations(obs, tier, seed, need_replay, build_info):
                         refs = holder_vals(e, huid)
                         eng.pending_lemmas = []
                         env["__divs"] = list(e.state.divs)
+                        env["__summary_vals"] = list(getattr(e.state, "summary_vals", []))
                         postc = ob.post(env, judged, refs)
                         goal = z3.Not(Z(postc))
                         if eng.pending_lemmas:
                             e.state.pc = list(e.state.pc) + eng.pending_lemmas
                             eng.pending_lemmas = []
                         what = "post-condition violated"
-                    # a fresh solver per post-condition query: measured far faster than the incremental one
-                    s = z3.Solver()
-                    s.set("arith.solver", 2)
-                    s.set("timeout", ob.timeout_ms)
-                    for p in e.state.pc:
-                        s.add(p)
-                    s.add(goal)
-                    eng.queries += 1
+                    # post-condition query: decided by external solver processes (z3 with the old arithmetic solver and
+                    # cvc5, in parallel, hard time limits): in-process z3 does not always honour its timeout
+                    qpc, goal = specialise(e.state.pc, goal)
+                    pending.append((e, what, qpc, goal))
+                if pending:
+                    import concurrent.futures as cf
                     tq = time.time()
-                    r = s.check()
+                    to_s = max(30, ob.timeout_ms // 1000)
+                    with cf.ThreadPoolExecutor(max_workers=7) as ex:
+                        texts = [smt2_of(qpc, goal) for (_e, _w, qpc, goal) in pending]   # z3 API: main thread only
+                        names = [str(v) for v in allvars]
+                        futs = [ex.submit(portfolio_check_text, txt, names, to_s) for txt in texts]
+                        for (e, what, qpc, goal), f in zip(pending, futs):
+                            pv, pm, who = f.result()
+                            eng.queries += 1
+                            rec.setdefault("portfolio", {})
+                            rec["portfolio"][str(who or pv)] = rec["portfolio"].get(str(who or pv), 0) + 1
+                            if pv == "unsat":
+                                solved.append((e, what, goal, z3.unsat, None))
+                            elif pv == "sat":
+                                solved.append((e, what, goal, z3.sat, pm))
+                            elif pv == "disagree":
+                                rec["verdict"] = "solver_disagreement"
+                            else:
+                                solved.append((e, what, goal, z3.unknown, None))
                     eng.solver_s += time.time() - tq
-                    m = s.model() if r == z3.sat else None
+                for e, what, goal, r, m in solved:
                     if r == z3.unknown:
                         rec["verdict"] = "unknown"
                         rec["detail"] = f"solver returned unknown ({mode}) on: {what}"
@@ -707,6 +854,15 @@ def parse_shape(shape, toks):
         return EnumV("Option<Ordering>", 1, (EnumV("Ordering", int(toks[1]), (), None),), "Some") if toks[0] == "Some" else EnumV("Option", 0, (), "None")
     if shape == "Result<i64>":
         return EnumV("Result", 0, (I("i64", toks[1]),), "Ok") if toks[0] == "Ok" else EnumV("Result", 1, (Opaque("e"),), "Err")
+    if shape == "tuple8":
+        tys = ["i8"] + ["u64"] * 7
+        return Agg(None, tuple(I(ty, x) for ty, x in zip(tys, toks)))
+    if shape == "u64" or shape == "u8":
+        return I(shape, toks[0])
+    if shape == "Weekday":
+        return EnumV("Weekday", int(toks[0]), (), None)
+    if shape == "Option<Duration>":
+        return EnumV("Option", 1, (dur_val(int(toks[1]), int(toks[2])),), "Some") if toks[0] == "Some" else EnumV("Option", 0, (), "None")
     if shape == "Result<Epoch>":
         if toks[0] == "Ok":
             return EnumV("Result", 0, (parse_shape("Epoch", toks[1:]),), "Ok")
